@@ -64,7 +64,49 @@ def c03_access_stmt_reordered(w, p):
         {k: sorted(map(sorted, v)) for k, v in plus.items()}
 
 
+_SIGNED_PRODUCT = _re.compile(r"\(\s*[-+]\s*[\w.]+(\([^()]*\))?\s*[*/]")
+
+
+def c03_brackets_after_leading_sign(w, p):
+    """The two writes differ ONLY in parentheses, and the first write
+    contains a bracketed product whose left-most factor carries a sign,
+    '(-x * y)': the writer does not bracket a signed left-most factor
+    (C02.unary_left_of_higher_precedence_op), the reader therefore regroups
+    it as -(x*y), and the redundant brackets the first write put around a
+    left operand that equals its right sibling are not produced again."""
+    if w.get("kind") != "second_write_differs":
+        return False
+    ch = _changed(w.get("diff", ""))
+    minus = [l[1:] for l in ch if l[0] == "-"]
+    plus = [l[1:] for l in ch if l[0] == "+"]
+    if not minus or len(minus) != len(plus):
+        return False
+    strip = lambda t: _re.sub(r"[()\s]", "", t)
+    for a, b in zip(minus, plus):
+        if strip(a) != strip(b):
+            return False
+        if not _SIGNED_PRODUCT.search(a):
+            return False
+    return True
+
+
 def mechanism_prefix_in_kinds(w, p):
     m = w.get("mechanism")
     return (isinstance(m, str) and m.startswith(p.get("prefix", "\0"))
             and w.get("kind") in p.get("kinds", []))
+
+
+def c28_region_left_by_transfer(w, p):
+    """mechanism 'region_left_by_<kinds>:<Transformation>': the profiling /
+    NaN-test / read-only-verify transformations accept a region that holds an
+    EXIT or CYCLE of an enclosing loop (a CodeBlock) or a RETURN; the
+    extraction transformation excludes CodeBlocks, so for it only RETURN is
+    the known mechanism."""
+    m = w.get("mechanism")
+    if not isinstance(m, str) or not m.startswith("region_left_by_") or \
+            w.get("kind") not in p.get("kinds", []):
+        return False
+    kinds, _, tname = m[len("region_left_by_"):].partition(":")
+    if tname == "ExtractTrans":
+        return kinds == "return"
+    return tname in ("ProfileTrans", "NanTestTrans", "ReadOnlyVerifyTrans")
